@@ -159,9 +159,15 @@ func (m *Message) decodeAVPs(b []byte) error {
 			return fmt.Errorf("Failed to decode AVP: %s", err)
 		}
 		m.AVP = append(m.AVP, a)
-		n += a.Len()
+		n += paddedLen(a.Length)
 	}
 	return nil
+}
+
+// paddedLen returns the declared AVP length l rounded up to a multiple of 4,
+// which is the distance to the next AVP on the wire.
+func paddedLen(l int) int {
+	return (l + 3) &^ 3
 }
 
 // NewMessage creates and initializes a Message.
